@@ -114,6 +114,7 @@ func (st *State) mapDelete(m, k Val, pos token.Pos) {
 	}
 	d := st.arr(dom, "(Array Int (Array Int Bool))")
 	had := and(not(eq(mr, "0")), sel(sel(d, mr), kt))
+	st.countRemoval(had)
 	l := st.arr(ln, "(Array Int Int)")
 	// delete on a nil map is a no-op
 	st.setArr(ln, "(Array Int Int)", ite(had, store(l, mr, fmt.Sprintf("(- %s 1)", sel(l, mr))), l))
@@ -728,4 +729,13 @@ func (st *State) appendStructs(fr *Frame, in ssa.Instruction, s, add Val, pos to
 	}
 	st.assume(fmt.Sprintf("(not (= %s 0))", resBase))
 	st.setResult(fr, in, Val{T: s.T, C: []string{resBase, resOff, newLen, resCap}})
+}
+
+// countRemoval: ghost counter of entries actually removed from maps / sync.Maps by this call (removed() in specs).
+func (st *State) countRemoval(had string) {
+	const name = "G|removed"
+	st.e.ghostInit[name] = "(and (>= $ 0) (< $ 4611686018427387904))"
+	n := st.arr(name, "Int")
+	st.setArr(name, "Int", fmt.Sprintf("(+ %s %s)", n, ite(had, "1", "0")))
+	st.written[name] = true
 }
